@@ -24,9 +24,17 @@ Theorem C06_assignment_width_sound :
     in_i128 z -> Forall (fun c => permits c z) cs -> fits (int_type cs) z.
 Proof. exact Proofs.C06.int_type_sound. Qed.
 
+(* a fixed-width type needs a finite, unmarked serial constraint AND an unmarked last constraint -- the one that decides
+   whether the resulting type is extensible (X.680 50.8).  The second half was false of the code until the fix of
+   C06-serial-extensible-fixed-width: `INTEGER (0..10)(2..5, ...)` got u8. *)
 Theorem C06_assignment_fixed_only_if :
-  forall cs, int_type cs <> Unbounded -> Exists finite_nonext cs.
+  forall cs, int_type cs <> Unbounded -> Exists finite_nonext cs /\ last_extensible cs = false.
 Proof. exact Proofs.C06.int_type_fixed_only_if. Qed.
+
+Example C06_example_serial_extensible :
+  int_type [CRange (Some 0) (Some 10) false false; CRange (Some 2) (Some 5) true false] = Unbounded /\
+  int_type [CRange (Some 0) (Some 10) true false; CRange (Some 2) (Some 5) false false] = Uint8.
+Proof. split; reflexivity. Qed.
 
 Theorem C06_max_restrictive_sound :
   forall a b z, fits a z -> fits b z -> fits (max_restrictive a b) z.
